@@ -238,6 +238,63 @@ def _():
 ''')]
 
 
+@mutant('c04_text_memo_outlives_edit', 'C04',
+        'get_text() memoised across calls in a module-level table keyed by id(el) (entry holds the element, so a '
+        'recycled id is harmless): stale once the user edits the text of the subtree between two queries')
+def _():
+    return [('soupsieve/css_match.py',
+             '''        return ''.join(
+            [
+                node for node in self.get_descendants(el, no_iframe=no_iframe)  # type: ignore[misc]
+                if self.is_content_string(node)
+            ]
+        )
+''',
+             '''        ent = _TEXT_MEMO.get((id(el), no_iframe))
+        if ent is not None and ent[0] is el:
+            return ent[1]
+        text = ''.join(
+            [
+                node for node in self.get_descendants(el, no_iframe=no_iframe)  # type: ignore[misc]
+                if self.is_content_string(node)
+            ]
+        )
+        if len(_TEXT_MEMO) > 4096:
+            _TEXT_MEMO.clear()
+        _TEXT_MEMO[(id(el), no_iframe)] = (el, text)
+        return text
+'''),
+            ('soupsieve/css_match.py',
+             '''class _FakeParent:
+''',
+             '''_TEXT_MEMO = {}  # type: dict[tuple[int, bool], tuple[bs4.Tag, str]]
+
+
+class _FakeParent:
+''')]
+
+
+@mutant('c04_classes_stashed_on_element', 'C04',
+        'the split class list is stashed on the element object (a private Python attribute, invisible in attrs and in '
+        'the serialisation) and reused by later calls: stale once the user changes the class attribute')
+def _():
+    return [('soupsieve/css_match.py',
+             '''        classes = cls.get_attribute_by_name(el, 'class', [])
+        if isinstance(classes, str):
+            classes = RE_NOT_WS.findall(classes)
+        return cast(Sequence[str], classes)
+''',
+             '''        stash = el.__dict__.get('_sv_classes')
+        if stash is not None:
+            return cast(Sequence[str], stash)
+        classes = cls.get_attribute_by_name(el, 'class', [])
+        if isinstance(classes, str):
+            classes = RE_NOT_WS.findall(classes)
+        el.__dict__['_sv_classes'] = classes
+        return cast(Sequence[str], classes)
+''')]
+
+
 @mutant('c04_fake_parent_not_undone_on_abort', 'C04',
         'match_nth gives a parentless root element a temporary fake parent by assigning el.parent and undoes it at the '
         'end of the loop body - but not when the evaluation is aborted by an exception in between')
